@@ -63,6 +63,8 @@ package glob
 //@   ensures [def] matched == globMatches(pattern, str)
 //@   ensures matched && len(pattern) > 0 && pattern[0] != '*' ==> agree(str, pattern, litpre(pattern))
 
+// IsGlob is a function of the pattern (definition of the spec function, not an obligation)
+//@ ghost func isGlobPat(pattern string) bool
 //@ ghost func parseLo(pattern string, desc bool) string
 //@ ghost func parseHi(pattern string, desc bool) string
 //@ func Parse
@@ -78,3 +80,4 @@ package glob
 
 //@ func IsGlob
 //@   nopanic
+//@   ensures [ghost-def.isglob] result == isGlobPat(pattern)
